@@ -79,4 +79,22 @@ HeaderOutcome(class, v, max) ==
     [] class = "ok"         -> IF v <= max THEN [k |-> "route", v |-> v]
                                            ELSE [k |-> "reject"]
     [] class = "toonew"     -> [k |-> "reject"]
+
+\* --- version policies (server.rs build check, versioning.rs request_version) ---
+\* "unversioned": VersionPolicy::Unversioned -- no version is determined for a
+\*   request and routing ignores ranges; such a server is only *built* when
+\*   every registered range is `all` (BuildError::UnversionedServerHasVersionedRoutes).
+\* "header":  VersionPolicy::Dynamic(ClientSpecifiesVersionInHeader).
+\* "default": VersionPolicy::Dynamic(an application policy that supplies the
+\*   version `dflt` when the header is absent and otherwise behaves like
+\*   "header") -- the documented use of the DynamicVersionPolicy trait.
+Policies == {"unversioned", "header", "default"}
+BuildAccepted(policy, ranges) == policy # "unversioned" \/ \A r \in ranges : r.k = "all"
+\* k = "route" with v = 0 means "routed with no version constraint".
+PolicyOutcome(policy, class, v, max, dflt) ==
+  CASE policy = "unversioned" -> [k |-> "route", v |-> 0]
+    [] policy = "default" /\ class = "missing" -> [k |-> "route", v |-> dflt]
+    [] OTHER -> HeaderOutcome(class, v, max)
+\* membership as routing sees it: no version constraint matches every range
+RoutedInRange(r, v) == IF v = 0 THEN TRUE ELSE InRange(r, v)
 =============================================================================
